@@ -40,7 +40,7 @@ Empty == [dents |-> {}, kind |-> [i \in Ino |-> "free"], body |-> [i \in Ino |->
 TraceInit ==
     /\ l = 1 /\ fs = Empty /\ fs0 = Empty
     /\ stack = [p \in Procs |-> <<>>] /\ res = [p \in Procs |-> "ok"] /\ who = "" /\ natk = 0
-    /\ everIn = {} /\ bad = FALSE
+    /\ everIn = {} /\ bad = FALSE /\ denied = {} /\ pinned = {}
 
 \* a new recorded case: the tree and, per caller, the (parent directory inode, final name) its path resolved to
 T_Init ==
@@ -50,6 +50,7 @@ T_Init ==
                                  IF i <= Len(E.frames) THEN << Frame(E.frames[i][1], E.frames[i][2]) >> ELSE <<>>]
     /\ res' = [p \in Procs |-> LET i == IF p = "p1" THEN 1 ELSE 2 IN IF i <= Len(E.frames) THEN "running" ELSE "ok"]
     /\ who' = "" /\ natk' = 0 /\ everIn' = ReachFrom(FsOf(E), {R}) /\ bad' = FALSE
+    /\ denied' = ToSetL(E.denied) /\ pinned' = ToSetL(E.pinned)
 
 ApplyAtt(f, e) ==
     CASE e.nr = "mkdirat"   -> Mkdirat(f, e.d1, e.n1, e.rid).fs
@@ -62,7 +63,7 @@ T_Att ==
     /\ l <= Len(Rec) /\ E.ev = "att" /\ Consume
     /\ fs' = IF E.ret = 0 THEN ApplyAtt(fs, E) ELSE fs
     /\ natk' = natk + 1 /\ who' = "attacker"
-    /\ UNCHANGED <<fs0, stack, res, bad>> /\ everIn' = everIn \cup ReachFrom(fs', {R})
+    /\ UNCHANGED <<fs0, stack, res, bad, denied, pinned>> /\ everIn' = everIn \cup ReachFrom(fs', {R})
 
 \* recursion into the next listed child / end of the batch: no system call
 Silent ==
@@ -75,7 +76,7 @@ T_Unlink ==
     /\ LET p == PName(E.who) IN
        /\ Running(p) /\ Top(p).pc = (IF E.flag = "REMOVEDIR" THEN "rmdir" ELSE "unlink")
        /\ E.d1 = Top(p).d /\ E.n1 = Top(p).n
-       /\ LET r == IF E.flag = "REMOVEDIR" THEN Rmdirat(fs, E.d1, E.n1) ELSE Unlinkat(fs, E.d1, E.n1) IN
+       /\ LET r == IF E.flag = "REMOVEDIR" THEN RmdirP(fs, E.d1, E.n1) ELSE UnlinkP(fs, E.d1, E.n1) IN
             IF E.ret = 0 THEN r.res.ok ELSE ~r.res.ok /\ r.res.err = E.kind
        /\ Step(p)
     /\ bad' = (bad \/ (E.ret = 0 /\ E.d1 \notin everIn)) /\ UNCHANGED everIn
